@@ -538,7 +538,8 @@ class SimXmlsec(object):
     def _healthy(self, argv, inv):
         op = inv["op"]
         if op == "version":
-            return Result(0, VERSION_BANNER, b"")
+            # (run knob: the release the installed tool reports; nothing else about the tool depends on it)
+            return Result(0, getattr(self, "version_banner", None) or VERSION_BANNER, b"")
         if op == "list-transforms":
             return Result(0, TRANSFORMS_BANNER, b"")
         id_attr = "ID"
